@@ -26,6 +26,9 @@ def gen_block(rng):
     if rng.random() < 0.35:
         # a raw action that raises the signal again from inside the delivery, somewhere in the list
         regs.insert(rng.randint(0, len(regs)), "reraiser")
+    if rng.random() < 0.3:
+        # a second thread in the process (a shutdown ends the process, not one thread)
+        regs.insert(0, "thread")
     ops += regs
     for _ in range(rng.randint(1, 7)):
         r = rng.random()
